@@ -170,6 +170,27 @@ func partCorrupt(shard, shards int) {
 			vrep.AddInt("b_seed_bytes:"+sd.Name, int64(len(sd.Text)))
 		}
 	}
+	if shard == 0 {
+		// over-long lines (longer than a line scanner's default token of 64 KiB) before / inside / after the annotated part of
+		// the line-oriented formats: the file still contains its annotations, so it is a package or an error, never nothing
+		long := "# " + strings.Repeat("x", 70000) + "\n"
+		for _, sd := range seeds {
+			if sd.File != "Makefile" && sd.File != "s.grog.sh" {
+				continue
+			}
+			lines := strings.SplitAfter(sd.Text, "\n")
+			for pos := 0; pos <= len(lines); pos++ {
+				content := strings.Join(lines[:pos], "") + long + strings.Join(lines[pos:], "")
+				res := loadFile(dir, sd.File, []byte(content))
+				origin := map[string]any{"part": "b", "seed": sd.Name, "over_long_line_before_line": pos}
+				checkRobust(res, sd.File, []byte(content[:200]), origin)
+				if res.outcome() == "no-package" {
+					vrep.Violation("build-file-silently-ignored:"+loaderName(sd.File)+":over-long-line", fmt.Sprintf("%s with its annotations intact and a 70 KiB comment line inserted before line %d loads to nothing and reports no error", sd.File, pos), origin)
+				}
+				loaded++
+			}
+		}
+	}
 	single := loaded
 	typeConfusion(dir, shard, shards, &loaded)
 	confusion := loaded - single
